@@ -116,6 +116,10 @@ pub fn generate(tier: Tier, rng: &mut Rng, sink: &mut dyn FnMut(RtCase)) {
         crate::GEN_PANICKED.store(true, std::sync::atomic::Ordering::SeqCst);
         eprintln!("generator family gen_tokio panicked");
     }
+    if std::panic::catch_unwind(std::panic::AssertUnwindSafe(|| gen_hugelimit(&mut g))).is_err() {
+        crate::GEN_PANICKED.store(true, std::sync::atomic::Ordering::SeqCst);
+        eprintln!("generator family gen_hugelimit panicked");
+    }
     if std::panic::catch_unwind(std::panic::AssertUnwindSafe(|| gen_yield(&mut g))).is_err() {
         crate::GEN_PANICKED.store(true, std::sync::atomic::Ordering::SeqCst);
         eprintln!("generator family gen_yield panicked");
@@ -1493,7 +1497,29 @@ fn gen_hist(g: &mut Gen) {
                 } else {
                     6 * n + 20
                 };
-                let evs = adaptive_call(g.rng, &mut graph, &cfg, knobs, max_events);
+                let mut evs = adaptive_call(g.rng, &mut graph, &cfg, knobs, max_events);
+                // every fifth run: cut short after some progress and abort (the future of the call is
+                // dropped midway - in cases with an odd id while a panic unwinds)
+                let completions = evs
+                    .iter()
+                    .filter(|e| matches!(e.kind, CallEvKind::Complete(..)))
+                    .count();
+                if completions >= 1 && g.rng.chance(1, 5) && !evs.iter().any(|e| e.kind == CallEvKind::Abort) {
+                    let upto = 1 + g.rng.below(completions);
+                    let mut seen = 0usize;
+                    let mut cut = evs.len();
+                    for (k, e) in evs.iter().enumerate() {
+                        if matches!(e.kind, CallEvKind::Complete(..)) {
+                            seen += 1;
+                            if seen == upto {
+                                cut = k + 1;
+                                break;
+                            }
+                        }
+                    }
+                    evs.truncate(cut);
+                    evs.push(ev(CallEvKind::Abort));
+                }
                 runs.push(Run::Call(cfg, evs));
             }
         }
@@ -1863,6 +1889,21 @@ fn gen_yield(g: &mut Gen) {
     }
 }
 
+/// nm-hugelimit: `limit = usize::MAX` ("unlimited" spelled as a number), with failures; the model
+/// counts limits in unary, so these are monitors only (`nm-` prefix).
+fn gen_hugelimit(g: &mut Gen) {
+    let count = g.pick(200, 2000);
+    for k in 0..count {
+        let (ops, n) = random_graph(g.rng, 1, 6, true);
+        let mut graph = must_build(&ops);
+        let apis: &[Api] = if k % 4 == 0 { &[Api::ForEach] } else { &[Api::TryForEach] };
+        let mut cfg = random_call_cfg(g.rng, n, true, apis);
+        cfg.lim = if k % 5 == 4 { usize::MAX - 1 } else { usize::MAX };
+        let evs = adaptive_call(g.rng, &mut graph, &cfg, KNOBS_RAND, 6 * n + 20);
+        g.emit("nm-hugelimit", &ops, Body::X(cfg, evs));
+    }
+}
+
 fn gen_tokio(g: &mut Gen) {
     // calls: k succeeding roots, one failing root F, a child C of F; F inserted first or last
     let ks: Vec<usize> = match g.tier {
@@ -1950,7 +1991,7 @@ fn gen_race(g: &mut Gen) {
 
 fn gen_share(g: &mut Gen) {
     use interruptible::{Interruptibility, InterruptibilityState};
-    let count = g.pick(150, 1500);
+    let count = g.pick(300, 3000);
     for k in 0..count {
         // every third case: the empty graph
         let (ops, n) = if k % 3 == 2 {
@@ -2012,6 +2053,7 @@ fn gen_share(g: &mut Gen) {
             }
             runs.push(Run::Call(cfg, evs));
         }
-        g.emit("share", &ops, Body::H(runs));
+        // every fourth history: all senders of the interrupt channel are dropped after the first call
+        g.emit(if k % 4 == 3 { "share-closed" } else { "share" }, &ops, Body::H(runs));
     }
 }
